@@ -57,6 +57,25 @@ class MaskedObj(object):
     def ndim(self):
         return self.data.ndim
 
+    @property
+    def size(self):
+        # (numpy.ma: number of cells, masked ones included)
+        return self.data.size
+
+    @property
+    def dtype(self):
+        return self.data.dtype
+
+    @property
+    def T(self):
+        return MaskedObj(self.data.T, self.mask.T)
+
+    def count(self, axis=None, keepdims=False):
+        return _np.sum(~self.mask, axis=axis, keepdims=keepdims)
+
+    def copy(self):
+        return MaskedObj(self.data.copy(), self.mask.copy())
+
     def __len__(self):
         return len(self.data)
 
